@@ -1,21 +1,20 @@
 SPECIFICATION Spec
 CONSTANTS
-  Acct <- A2
-  Keys = {"k1", "k2"}
+  Acct <- A1
+  Keys = {"k1"}
   Vals = {"a", "b"}
   KvChecksNonce = TRUE
   FailedCreateConsumesNonce = TRUE
   EmptyTxInvalid = TRUE
   AdminBoundsChecked = TRUE
-  BlockSet <- BlocksL
-  MaxH = 4
-  MaxRestarts = 3
-  QKinds = {"state", "call"}
+  BlockSet <- BlocksG
+  MaxH = 2
+  MaxRestarts = 2
+  QKinds = {}
   ResetKvs = TRUE
   MaxCrashes = 1
-  TrimFloor = 0
+  TrimFloor = 1
   HdrRebuilt = TRUE
-VIEW view
 INVARIANTS TypeOK PersistentIsFunctionOfChain
 PROPERTIES HashesDependOnlyOnChain ResultDependsOnlyOnChain QueriesDependOnlyOnChain QueryNeverPanics
 CHECK_DEADLOCK FALSE
